@@ -4,12 +4,15 @@
 //! 1..4 serializer workers, random serialization delays and random physical grouping. After the write
 //! manager is dropped the store must equal applying the batches one after another in creation order,
 //! each exactly once.
-use std::collections::BTreeMap;
-use std::sync::atomic::Ordering;
+use std::collections::{BTreeMap, BTreeSet};
+use std::sync::{Arc, atomic::Ordering};
+
+use dashmap::DashSet;
 
 use qbice_stable_type_id::Identifiable;
 use qbice_storage::{
-    kv_database::{DiscriminantEncoding, WideColumn, WideColumnValue},
+    key_of_set_map::KeyOfSetMap as _,
+    kv_database::{DiscriminantEncoding, KeyOfSetColumn, WideColumn, WideColumnValue},
     single_map::SingleMap as _,
     storage_engine::{StorageEngine as _, db_backed::{Configuration, DbBacked}},
 };
@@ -25,6 +28,12 @@ impl WideColumn for Col {
 }
 impl WideColumnValue<Col> for u64 { fn discriminant() {} }
 
+#[derive(Debug, Clone, Copy, PartialEq, Eq, PartialOrd, Ord, Hash, Identifiable)]
+#[stable_type_id_crate(qbice_stable_type_id)]
+struct SetCol;
+impl KeyOfSetColumn for SetCol { type Key = u64; type Element = u64; }
+type Set = Arc<DashSet<u64>>;
+
 fn one_history(rt: &tokio::runtime::Runtime, rng: &mut Rng, idx: u64) -> u64 {
     let db = MockDb::default();
     let workers = 1 + (rng.next() % 4) as usize;
@@ -34,18 +43,34 @@ fn one_history(rt: &tokio::runtime::Runtime, rng: &mut Rng, idx: u64) -> u64 {
     let engine = DbBacked::new(db.clone(), Configuration::builder().serialization_workers(workers).build());
     let manager = engine.new_write_manager();
     let map = engine.new_single_map::<Col, u64>();
+    let sets = engine.new_key_of_set_map::<SetCol, Set>();
     let nb = 1 + (rng.next() % 9) as usize;
     let nkeys = 1 + rng.next() % 3;
+    let nelems = 1 + rng.next() % 3;
     let mut model: BTreeMap<u64, u64> = BTreeMap::new();
+    let mut set_model: BTreeMap<u64, BTreeSet<u64>> = BTreeMap::new();
     let mut desc = format!("workers={workers} group_ops={} delay_mod={} batches=[", db.0.group_ops.load(Ordering::Relaxed), db.0.delay_mod.load(Ordering::Relaxed));
     let mut batches = Vec::new();
     for b in 0..nb {
         let mut wb = manager.new_write_batch();
-        let nops = (rng.next() % 4) as usize; // 0 = empty batch
+        let nops = (rng.next() % 6) as usize; // 0 = empty batch
         desc.push_str(&format!("b{b}:{{"));
         for _ in 0..nops {
             let k = rng.next() % nkeys;
-            if rng.next() % 5 == 0 {
+            let kind = rng.next() % 10;
+            if kind >= 5 {
+                // key-of-set traffic: the same (key, element) is often inserted and removed within one batch
+                let e = rng.next() % nelems;
+                if kind >= 7 {
+                    rt.block_on(sets.insert(k, e, &mut wb));
+                    set_model.entry(k).or_default().insert(e);
+                    desc.push_str(&format!("sadd {k}:{e};"));
+                } else {
+                    rt.block_on(sets.remove(&k, &e, &mut wb));
+                    if let Some(s) = set_model.get_mut(&k) { s.remove(&e); }
+                    desc.push_str(&format!("srem {k}:{e};"));
+                }
+            } else if kind == 0 {
                 rt.block_on(map.remove(&k, &mut wb));
                 model.remove(&k);
                 desc.push_str(&format!("del {k};"));
@@ -75,8 +100,23 @@ fn one_history(rt: &tokio::runtime::Runtime, rng: &mut Rng, idx: u64) -> u64 {
     });
     eprintln!("LAST-HISTORY #{idx}: {desc}");
     drop(map);
+    drop(sets);
     drop(manager); // must return only after everything is in the store
     // compare
+    {
+        let stored = db.0.sets.lock().unwrap();
+        let mut got_sets: BTreeMap<u64, BTreeSet<u64>> = BTreeMap::new();
+        for k in 0..nkeys {
+            if let Some(ms) = stored.get(&set_key::<SetCol>(&k)) {
+                let s: BTreeSet<u64> = ms.iter().map(|b| qbice_serialize::postcard::decode::<u64>(b, &qbice_serialize::Plugin::default()).unwrap()).collect();
+                if !s.is_empty() { got_sets.insert(k, s); }
+            }
+        }
+        let want: BTreeMap<u64, BTreeSet<u64>> = set_model.iter().filter(|(_, s)| !s.is_empty()).map(|(k, s)| (*k, s.clone())).collect();
+        if got_sets != want {
+            report_found("write-behind final set content != sequential application in creation order", &desc, &format!("{got_sets:?}"), &format!("{want:?}"));
+        }
+    }
     let wide = db.0.wide.lock().unwrap();
     let mut got: BTreeMap<u64, u64> = BTreeMap::new();
     for k in 0..nkeys {
